@@ -95,7 +95,17 @@ func (t Type) Key() string {
 }
 
 // Equal reports whether the two types are the same type.
-func (t Type) Equal(u Type) bool { return t.Key() == u.Key() }
+func (t Type) Equal(u Type) bool {
+	if t.Class != u.Class || t.T != u.T || t.Size != u.Size || t.Prec != u.Prec || t.Scale != u.Scale || t.Unsigned != u.Unsigned || len(t.Values) != len(u.Values) {
+		return false
+	}
+	for i := range t.Values {
+		if t.Values[i] != u.Values[i] {
+			return false
+		}
+	}
+	return true
+}
 
 // Expr is a default value: a literal in SQL spelling ('x', 7, true) or a raw SQL expression.
 type Expr struct {
@@ -235,15 +245,78 @@ type Model struct {
 
 // Clone returns a deep copy of the model.
 func (m *Model) Clone() *Model {
-	b, err := json.Marshal(m)
-	if err != nil {
-		panic(err)
+	out := *m
+	out.Enums = make([]*Enum, len(m.Enums))
+	for i, e := range m.Enums {
+		out.Enums[i] = &Enum{Name: e.Name, Values: cpStrings(e.Values)}
 	}
-	out := &Model{}
-	if err := json.Unmarshal(b, out); err != nil {
-		panic(err)
+	out.Tables = make([]*Table, len(m.Tables))
+	for i, t := range m.Tables {
+		out.Tables[i] = t.clone()
 	}
-	return out
+	return &out
+}
+
+func cpStrings(s []string) []string {
+	if s == nil {
+		return nil
+	}
+	return append(make([]string, 0, len(s)), s...)
+}
+
+func (t *Table) clone() *Table {
+	out := *t
+	out.Columns = make([]*Column, len(t.Columns))
+	for i, c := range t.Columns {
+		cc := *c
+		cc.Type.Values = cpStrings(c.Type.Values)
+		if c.Default != nil {
+			d := *c.Default
+			cc.Default = &d
+		}
+		if c.Generated != nil {
+			g := *c.Generated
+			g.Cols = cpStrings(g.Cols)
+			cc.Generated = &g
+		}
+		if c.Identity != nil {
+			id := *c.Identity
+			cc.Identity = &id
+		}
+		out.Columns[i] = &cc
+	}
+	if t.PK != nil {
+		out.PK = &PrimaryKey{Cols: cpStrings(t.PK.Cols)}
+	}
+	out.Indexes = nil
+	for _, i := range t.Indexes {
+		ci := *i
+		ci.Parts = make([]Part, len(i.Parts))
+		for j, p := range i.Parts {
+			cp := p
+			cp.ExprCols = cpStrings(p.ExprCols)
+			if p.NullsFirst != nil {
+				v := *p.NullsFirst
+				cp.NullsFirst = &v
+			}
+			ci.Parts[j] = cp
+		}
+		ci.WhereCols, ci.Include = cpStrings(i.WhereCols), cpStrings(i.Include)
+		out.Indexes = append(out.Indexes, &ci)
+	}
+	out.FKs = nil
+	for _, f := range t.FKs {
+		cf := *f
+		cf.Cols, cf.RefCols = cpStrings(f.Cols), cpStrings(f.RefCols)
+		out.FKs = append(out.FKs, &cf)
+	}
+	out.Checks = nil
+	for _, k := range t.Checks {
+		ck := *k
+		ck.Cols = cpStrings(k.Cols)
+		out.Checks = append(out.Checks, &ck)
+	}
+	return &out
 }
 
 // JSON returns the canonical JSON text of the model.
